@@ -238,6 +238,10 @@ func golangPseudoFamily(r *RNG, s string) []string {
 		base + "-0." + early + "-" + rev,
 		base + "-rc1.0." + late + "-" + rev,
 		base + "-beta.0." + tail[:14] + "-" + rev,
+		// the same instant, another revision
+		base + "-0." + tail[:14] + "-aaaaaaaaaaaa",
+		base + "-0." + tail[:14] + "-bbbbbbbbbbbb",
+		base + "-0." + tail[:14] + "-aaaaaaaaaaaa+incompatible",
 	}
 	return out
 }
